@@ -2237,6 +2237,25 @@ func vgEnvInt(name string, def int) int {
 	return def
 }
 
+// vgGuarded runs one history under a watchdog: a library call that never returns (e.g. blocked on a lock that
+// an earlier panic left held) must not hang the check for its whole time budget.  The run stops there; the
+// trace written so far is flushed and the test fails with the position, which the check reports as a broken
+// correspondence.
+func vgGuarded(t *testing.T, w *bufio.Writer, what string, f func()) {
+	done := make(chan struct{})
+	go func() {
+		defer close(done)
+		f()
+	}()
+	select {
+	case <-done:
+	case <-time.After(45 * time.Second):
+		buf := make([]byte, 1<<16)
+		buf = buf[:runtime.Stack(buf, true)]
+		t.Fatalf("harness: a %s did not finish within 45 s: some library call never returned.\n%s", what, buf)
+	}
+}
+
 func TestVerifGME(t *testing.T) {
 	out := os.Getenv("VERIF_OUT")
 	if out == "" {
@@ -2269,7 +2288,7 @@ func TestVerifGME(t *testing.T) {
 				t.Fatal(err)
 			}
 			for _, h := range hs {
-				r.runHistory(h)
+				vgGuarded(t, w, "corpus history", func() { r.runHistory(h) })
 			}
 		}
 	}
@@ -2280,22 +2299,22 @@ func TestVerifGME(t *testing.T) {
 	t0 := time.Now()
 	nflap := vgEnvInt("VERIF_FLAP", 0)
 	for i := 0; i < nflap; i++ {
-		r.runHistory(vgGenFlapScenario(g))
+		vgGuarded(t, w, "flap scenario", func() { r.runHistory(vgGenFlapScenario(g)) })
 	}
 	ntimed := vgEnvInt("VERIF_TIMED", 0)
 	for i := 0; i < ntimed; i++ {
-		r.genTimed(g, vgEnvInt("VERIF_TMAXOPS", 14))
+		vgGuarded(t, w, "timed history", func() { r.genTimed(g, vgEnvInt("VERIF_TMAXOPS", 14)) })
 	}
 	nready := vgEnvInt("VERIF_READY", 0)
 	for i := 0; i < nready; i++ {
-		r.runHistory(vgGenReadyScenario(g))
+		vgGuarded(t, w, "ready scenario", func() { r.runHistory(vgGenReadyScenario(g)) })
 	}
 	nconc := vgEnvInt("VERIF_CONC", 0)
 	for i := 0; i < nconc; i++ {
-		r.runHistory(vgGenConcScenario(g))
+		vgGuarded(t, w, "concurrent-update scenario", func() { r.runHistory(vgGenConcScenario(g)) })
 	}
 	for i := 0; i < n; i++ {
-		r.runHistory(vgGenHistory(g, maxOps, live))
+		vgGuarded(t, w, "random history", func() { r.runHistory(vgGenHistory(g, maxOps, live)) })
 	}
 	fmt.Fprintf(os.Stderr, "gme harness: %d lines in %v\n", r.nlines, time.Since(t0))
 	if vgClk.attrErr > 0 {
